@@ -167,6 +167,24 @@ def check_from_algmod(prog, rep, c):
                     verdict = ("bad", n)
                 elif uses_dbl and not matrix_valued:
                     verdict = ("ok", n)
+        if verdict is None and dbl:
+            # the weight is applied where the block's contribution is accumulated: out[..., :, :] += w * part  (matrix-valued when the target keeps two full trait axes)
+            for n in ast.walk(lp):
+                if isinstance(n, ast.AugAssign) and isinstance(n.op, ast.Add) and isinstance(n.target, ast.Subscript) \
+                        and any(isinstance(x, ast.Name) and x.id in dbl for x in ast.walk(n.value)):
+                    sl = n.target.slice.elts if isinstance(n.target.slice, ast.Tuple) else [n.target.slice]
+                    full = 0
+                    for e in reversed(sl):
+                        if isinstance(e, ast.Slice) and e.lower is None and e.upper is None:
+                            full += 1
+                        else:
+                            break
+                    txt = dump(n.value)
+                    symmetrised = ".T" in txt and "+" in txt
+                    if full >= 2 and not symmetrised:
+                        verdict = ("bad", n)
+                    elif full <= 1:
+                        verdict = ("ok", n)
         if verdict and verdict[0] == "bad":
             rep.violate("R2-tiling", construct, "column blocks are visited only up to the row block and the (trait x trait) contribution M of an off-diagonal block is doubled; "
                         "its mirror block contributes M' (transpose), so between-trait covariances depend on the chunk size", where(f, verdict[1]),
@@ -297,7 +315,7 @@ def run(prog, rep, tier):
                        "all sixteen from_algmod builders, rank / initialisation analysis of the result tensors, and the usefulness-criterion formula. These are necessary "
                        "conditions; equality with exhaustive gamete enumeration is a numerical identity outside static reach.")
     rep.not_decided = ["the tensor identity itself (equality with exhaustive gamete enumeration)", "the algebra of the block products (e.g. M + M' for mirrored trait blocks)"]
-    rep.only_rules = {"R1-linkage", "R2-tiling", "R3-coupling", "R4-storage", "R6-chunks"}
+    rep.only_rules = {"R1-linkage", "R2-tiling", "R3-coupling", "R4-storage", "R6-chunks", "R5-usefulness"}
     for r, n in (("R1-linkage", 12), ("R2-tiling", 7), ("R3-coupling", 7), ("R4-storage", 14), ("R6-chunks", 2)):
         rep.floor(r, n)
     check_linkage(prog, rep)
@@ -306,3 +324,6 @@ def run(prog, rep, tier):
             c = prog.get_class(nm, pref + nm)
             check_from_algmod(prog, rep, c)
     c05.check_chunks(prog, rep)
+    # the usefulness criterion is built from the variance at the requested selfing depth: arguments reach _calc_uc in its parameter order
+    c05.check_positional(prog, rep, rule="R5-usefulness", modules=("UsefulnessCriterion",))
+    rep.floor("R5-usefulness", 8)
